@@ -2,7 +2,7 @@
 from lib import fw
 from checks import _cl
 
-MODULES = ["SunriseVerif.Props.C04"]
+MODULES = ["SunriseVerif.Props.C04", "SunriseVerif.Props.C04Interval"]
 
 
 def run(ctx):
